@@ -611,6 +611,25 @@ func (e *Env) evalCall(n *ECall) (cval, error) {
 		}
 		c.R.Heap(HAlloc, ArraySort("Ref", "Bool"))
 		return cval{t: And(Not(Eq(r, Nil)), Not(Select(c.getHeap(e.old, HAlloc), c.rroot(r))), Select(c.getHeap(e.st, HAlloc), c.rroot(r))), typ: boolT}, nil
+	case "jsonfield":
+		// jsonfield(data, "member", "GoType"): the wire member as decoded by encoding/json
+		if err := need(3); err != nil {
+			return cval{}, err
+		}
+		d, err := e.eval(n.Args[0])
+		if err != nil {
+			return cval{}, err
+		}
+		nm, ok1 := n.Args[1].(*EStr)
+		ts, ok2 := n.Args[2].(*EStr)
+		if !ok1 || !ok2 {
+			return cval{}, fmt.Errorf("jsonfield(data, \"member\", \"type\")")
+		}
+		t, err := c.W.ParseType(e.pkgPath, ts.V)
+		if err != nil {
+			return cval{}, err
+		}
+		return cval{t: c.jsonField(d.t, nm.V, t, nil), typ: t}, nil
 	case "rtypeof":
 		// the reflect.Type of a Go type, as returned by reflect.TypeOf
 		if err := need(1); err != nil {
@@ -630,6 +649,16 @@ func (e *Env) evalCall(n *ECall) (cval, error) {
 			rt = types.NewInterfaceType(nil, nil)
 		}
 		return cval{t: app("Iface", "reflTypeOf", IntLit(int64(c.R.TypeID(t)))), typ: rt}, nil
+	case "box":
+		// box(v): the interface value holding v (with v's static type)
+		if err := need(1); err != nil {
+			return cval{}, err
+		}
+		v, err := e.eval(n.Args[0])
+		if err != nil {
+			return cval{}, err
+		}
+		return cval{t: MkIface(IntLit(int64(c.R.TypeID(v.typ))), c.R.Box(v.t)), typ: types.NewInterfaceType(nil, nil)}, nil
 	case "ptrof":
 		// the pointer boxed in an interface value (models are pointers to structs)
 		if err := need(1); err != nil {
